@@ -268,11 +268,15 @@ def _shared_state_findings(tree):
     return out
 
 
-@job("c20.no_shared_state", ("C20", "C03"))
+ALL_PROPS = tuple("C%02d" % k for k in range(1, 21) if k != 12)
+
+
+@job("c20.no_shared_state", ALL_PROPS)
 def no_shared_state(env):
     """frame condition over every module of the package (unbounded in configurations): methods and functions write only
     to instance attributes, their arguments and locals - never to containers owned by a class or a module, which every
-    Problem in the process would share.  Decided on the syntax tree of the current sources."""
+    Problem in the process and every surface of a model would share.  Decided on the syntax tree of the current sources.
+    Part of every property's check: each contract is stated per component instance and assumes this frame."""
     import ast
     import os
     import openaerostruct
@@ -290,8 +294,8 @@ def no_shared_state(env):
             finds = _shared_state_findings(tree)
             nfiles += 1
             env.functions.add(rel)
-            env.holds("C20,C03", "no class-level or module-level container is written from a method or function [%s]" % rel,
+            env.holds(",".join(ALL_PROPS), "no class-level or module-level container is written from a method or function [%s]" % rel,
                       not finds, "; ".join("%s %s.%s written at line %d" % f for f in finds[:5]), static=True)
-    env.holds("C20", "the frame scan saw the package's modules", nfiles > 40, "only %d files" % nfiles)
+    env.holds(",".join(ALL_PROPS), "the frame scan saw the package's modules", nfiles > 40, "only %d files" % nfiles)
     env.assumptions.add("frame scan is syntactic: writes through aliases (x = self.table; x[k] = v) and through "
                         "setattr/vars()/__dict__ are not seen")
